@@ -643,6 +643,27 @@ func (r *run) c20discoverErrors(base int) {
 			r.classes["discover-error-path"]++
 		}
 	}
+	// an address that is no multicast group: the socket opens, joining the group fails
+	for _, addr := range []string{"127.0.0.1", "0.0.0.0"} {
+		port := 42000 + r.g.R.Intn(9000)
+		a := fmt.Sprintf("%s:%d", addr, port)
+		op := "discover " + a + " x3 (no multicast group: the call fails after the socket was opened)"
+		failed := 0
+		for i := 0; i < 3; i++ {
+			if _, err := knx.Discover(a, 10*time.Millisecond); err != nil {
+				failed++
+			}
+		}
+		if failed == 0 {
+			r.classes["discover-non-group-accepted"]++
+			continue
+		}
+		r.classes["discover-error-path-join"]++
+		time.Sleep(5 * time.Millisecond)
+		if udpPortBound(port) {
+			r.violation("discover-socket-not-released", op, fmt.Sprintf("port %d still bound after the failed calls returned", port))
+		}
+	}
 	time.Sleep(20 * time.Millisecond)
 	if n := settleGoroutines(base); n > base {
 		r.violation("discover-goroutine-left", "discover <group>:0 x12 (fails after the socket was opened)", fmt.Sprintf("%d goroutines after the calls, %d before", n, base)+stacks())
